@@ -76,6 +76,9 @@ def go_record(name, go_text, expect=None, extra=None):
         return None, "parser recursion limit"
     rec = {"name": name, "ast": ast, "expect": list(expect) if expect is not None else [], "hasexpect": expect is not None,
            "pkguse": sorted(pkguse(ast, set())), "qualtypes": sorted(qualtypes(ast, set()))}
+    # the package every qualified type name is qualified with, and the names the imports bind (alias, else the last path segment)
+    rec["qualpkgs"] = sorted({q.split(".")[0] for q in rec["qualtypes"]})
+    rec["importnames"] = sorted({(i["alias"][0] if i.get("alias") else i["path"].rsplit("/", 1)[-1]) for i in ast.get("imports", [])})
     if extra:
         rec.update(extra)
     return rec, None
